@@ -115,6 +115,8 @@ func main() {
 		cmdIter(os.Args[2:])
 	case "conc":
 		cmdConc(os.Args[2:])
+	case "sched":
+		cmdSched(os.Args[2:])
 	default:
 		fmt.Fprintf(os.Stderr, "unknown command %q\n", os.Args[1])
 		os.Exit(2)
